@@ -681,6 +681,28 @@ def naming_distinct(p):
     return n
 
 
+def naming_caps(p, r):
+    """the distinct naming with capitalised spellings: locals, parameters and value globals may be written with a
+    capital first letter like types; and legal shadowing of a capitalised global by a capitalised local"""
+    n = naming_distinct(p)
+    caps = {}
+    for b in p.binders:
+        if getattr(b, "fixed", None) or b.kind == "casevar":    # case bindings must be lower case (parser)
+            continue
+        if r.random() < (0.35 if b.kind == "global" else 0.6):
+            caps[b] = n[b][0].upper() + n[b][1:]
+    n.update(caps)
+    gnames = [n[b] for b in p.binders if b.kind == "global" and b in caps]
+    for b in p.binders:
+        if b.kind == "global" or b.kind == "casevar" or not gnames or r.random() < 0.6:
+            continue
+        old = n[b]
+        n[b] = r.choice(gnames)
+        if not lexical_check(p, n):
+            n[b] = old
+    return n
+
+
 class Scope:
     """documented scoping: one scope per function / block / branch / loop body / case arm; a use
     refers to the innermost enclosing declaration of that name visible at that point (a value is
